@@ -38,7 +38,7 @@ Proof. unfold src_Transaction_discount_vsize, discount_vsize, div_ceil4. now rew
 Section BLK.
 Variables maxvec cap_vecu8 : N.
 Lemma src_block_size b : src_Block_size maxvec cap_vecu8 b = block_size maxvec cap_vecu8 b.
-Proof. unfold src_Block_size, block_size. cbv zeta. f_equal. apply nsum_map_ext. exact src_size. Qed.
+Proof. unfold src_Block_size, block_size. cbv zeta. rewrite src_varint_size. f_equal. apply nsum_map_ext. exact src_size. Qed.
 Lemma src_block_weight b : src_Block_weight maxvec cap_vecu8 b = block_weight maxvec cap_vecu8 b.
-Proof. unfold src_Block_weight, block_weight. cbv zeta. f_equal. apply nsum_map_ext. exact src_weight. Qed.
+Proof. unfold src_Block_weight, block_weight. cbv zeta. rewrite src_varint_size. f_equal. apply nsum_map_ext. exact src_weight. Qed.
 End BLK.
